@@ -80,13 +80,13 @@ class OFD(object):
 class SimRaw(io.RawIOBase):
     """raw file object over an OFD; wrapped in the real io buffering classes"""
 
-    def __init__(self, fs, fd, ofd, mode, closefd=True):
+    def __init__(self, fs, fd, ofd, mode, closefd=True, name=None):
         io.RawIOBase.__init__(self)
         self._fs = fs
         self._fd = fd
         self._ofd = ofd
         self.mode = mode
-        self.name = ofd.path
+        self.name = ofd.path if name is None else name      # like FileIO: the descriptor number if opened from one
         self._closefd = closefd
 
     def fileno(self):
@@ -806,7 +806,7 @@ class SimFS(object):
         if 'a' in m:
             ofd.pos = len(ofd.inode.data)       # FileIO positions an append-mode file at its end
         rawmode = ('rb+' if plus else 'rb') if 'r' in m else (mode.replace('t', '') if binary else mode.replace('t', '') + 'b')
-        raw = SimRaw(self, fd, ofd, rawmode, closefd)
+        raw = SimRaw(self, fd, ofd, rawmode, closefd, name=file if isinstance(file, int) else None)
         if buffering == 0:
             if not binary:
                 raise ValueError("can't have unbuffered text I/O")
